@@ -190,7 +190,7 @@ def gen_fault(w, rng, cfg):
             return None
         name, sid = rng.choice(cands)
         stride = rng.choice([5, 7, 9]) if w.tier == "quick" else rng.choice([1, 1, 2, 3])
-        return {"op": "abort_sweep", "call": {"op": name, "in": [sid]}, "stride": stride, "offset": rng.randint(1, stride),
+        return {"op": "abort_sweep", "call": {"op": name, "in": [sid]}, "stride": stride, "offset": rng.randint(1, stride), "max_points": 150 if w.tier == "quick" else 400,
                 "exc": rng.choice(["SimAbort", "KeyboardInterrupt", "MemoryError"])}
     if k == "preempt":
         n = cfg["threads"]
